@@ -8,6 +8,13 @@ import facts
 from runner import Check
 
 PROPS = {
+    "C03": ("rules_c03", "other",
+            "Decided, three clauses: (a) no single RNG draw pinned to a special point (closed end-point, exact 0 or 1/2, extreme word) adds "
+            "NaN/±inf to a sampler's result, for every sampler family x float type x constructor outcome with finite arguments — by "
+            "abstract interpretation with one tagged draw per run; (b) NaN-freedom, finiteness and lower bounds of the generic result "
+            "where they follow from signs and guards; (c) every panic edge in sampling code is discharged or listed as not discharged. "
+            "Not decided: ulp-level support (`<= max`), rounding escapes (Zipf n+1), upper bounds that need relational reasoning "
+            "(Beta <= 1, Binomial <= n), weighted-index properties."),
     "C04": ("rules_c04", "other",
             "Decided: the Ok/Err(variant)/panic verdict of every public scalar constructor on every cell of a partition of its "
             "argument space (NaN, ±inf, ±0, cells between the constants the code and docs compare against; ordered ladders for "
@@ -47,6 +54,7 @@ def main(argv):
     ap = argparse.ArgumentParser()
     ap.add_argument("prop")
     ap.add_argument("--tier", default=os.environ.get("VERIF_TIER") or "quick", choices=["quick", "thorough"])
+    ap.add_argument("--write-baseline", action="store_true", help="(maintenance) record the obligations proved on this tree as the reference")
     a = ap.parse_args(argv)
     if a.prop not in PROPS:
         print("unknown or unclaimed property", a.prop)
@@ -62,7 +70,10 @@ def main(argv):
             chk.tree = F.meta["tree_hash"]
             chk.configs.append({"config": cfg, "cfg_features": F.meta["cfg"], "extract_s": F.meta["extract_s"],
                                 "instances": len(F.instances), "rustc": F.meta["rustc"], "weights": F.meta["weights"]})
-            mod.run(chk, F, a.tier)
+            if a.write_baseline:
+                mod.run(chk, F, a.tier, write_baseline=True)
+            else:
+                mod.run(chk, F, a.tier)
     except SystemExit as e:
         chk.violation("infrastructure", "extract", "the check could not analyse the tree: %s (fail closed)" % e)
     except Exception:
